@@ -32,6 +32,19 @@ def value_modules():
     return out
 
 
+CASE_CAP = 40000
+
+
+def cap_cases(rng, cases, cap=None):
+    """bound the re-read workload per module (the thorough generators of the owning modules yield up to 340k cases;
+    keeping all parsed records of all modules in memory is what got a thorough run OOM-killed)"""
+    cap = cap or CASE_CAP
+    if len(cases) <= cap:
+        return cases
+    idx = sorted(rng.sample(range(len(cases)), cap))
+    return [cases[i] for i in idx]
+
+
 def recs_of(rec):
     if rec is None:
         return []
@@ -252,7 +265,7 @@ def run(ctx):
     # ---- part A: re-read the value-level workloads
     for name, mod in value_modules():
         rng = ctx.rng.__class__(ctx.seed * 7919 + int(name[1:]))
-        cases = mod.gen_cases(rng, ctx.tier)
+        cases = cap_cases(rng, mod.gen_cases(rng, ctx.tier))
         parse = getattr(mod, "PARSE", V.parse_view_record)
         res = V.run_module_cases(mod.HARNESS, cases, "asan", parse=parse)
         nrec = 0
